@@ -229,6 +229,18 @@ def Statement_prepared_any_schedule : Prop :=
   ∀ (n : Nat) (es : List (ExS n)) (calls : List (Nat × Row n)),
     (∀ e ∈ es, e.clean = true) → (runCalls es calls).2 = es
 
+/-- The whole prepared object — `prologue.base` included — is the same after an evaluation, whatever `base=`
+    keyword the evaluation was given, and the keyword of one evaluation has no influence on the next. -/
+def Statement_prepared_base_unchanged : Prop :=
+  ∀ (n : Nat) (p : PQ n) (st st' : Store) (b b' : Option (List Nat)), p.tree.clean = true →
+    (p.run st b).2 = p ∧ ((p.run st b).2.run st' b').1 = (p.run st' b').1
+
+theorem prepared_base_unchanged : Statement_prepared_base_unchanged := fun _ p st st' b b' h => by
+  have e : (p.run st b).2 = p := by
+    cases p with
+    | mk base tree => simp [PQ.run, QS.run_snd st tree h]
+  exact ⟨e, by rw [e]⟩
+
 theorem expr_eval_clears : Statement_expr_eval_clears := fun _ e c => ⟨e.eval_snd c, e.eval_fst c⟩
 
 theorem prepared_stateless : Statement_prepared_stateless := fun _ q st _ h hd =>
